@@ -30,7 +30,7 @@ type placement struct {
 
 func nm(s string) ast.Node { return ast.Name{N: s} }
 
-func c12Placements(e ast.Node, t gen.Ty, r *core.Rng) []placement {
+func c12Placements(e ast.Node, t gen.Ty, r *core.Rng, globals map[string]bool) []placement {
 	var ps []placement
 	add := func(name string, observe bool, doOut bool, stmts ...ast.Node) {
 		ps = append(ps, placement{Name: name, Stmts: stmts, DoOut: doOut, Observe: observe})
@@ -65,6 +65,41 @@ func c12Placements(e ast.Node, t gen.Ty, r *core.Rng) []placement {
 	add("for-body-in-function", true, true, ast.Assign{Name: "vf", Value: fn(ast.For{Vars: []string{"vi"}, Iters: []ast.Node{call("fromto", ast.IntLit{V: 0}, ast.IntLit{V: 1})}, Body: e})}, call("vf"))
 	add("yielded", true, true, ast.Assign{Name: "vg", Value: fn(ast.Yield{X: e})}, ast.For{Vars: []string{"vi"}, Iters: []ast.Node{call("vg")}, Body: nm("vi")})
 	add("toplevel-return", true, true, ast.Return{X: e})
+	// e inside a function whose parameters carry the values of e's variables, so that e reads locals; right before
+	// it an assignment to its leftmost variable sits in an if that is skipped at run time, and before that a
+	// computation that leaves something in the temp register
+	var names []string
+	seen := map[string]bool{}
+	ast.Walk(e, func(x ast.Node) bool {
+		if n, ok := x.(ast.Name); ok && globals[n.N] && !seen[n.N] {
+			seen[n.N] = true
+			names = append(names, n.N)
+		}
+		return true
+	})
+	if len(names) > 0 && len(names) <= 8 {
+		lm := names[0]
+		for x := e; ; {
+			if b, ok := x.(ast.Binary); ok {
+				x = b.L
+				continue
+			}
+			if n, ok := x.(ast.Name); ok && seen[n.N] {
+				lm = n.N
+			}
+			break
+		}
+		args := make([]ast.Node, 0, len(names)+1)
+		for _, n := range names {
+			args = append(args, nm(n))
+		}
+		args = append(args, ast.BoolLit{V: false})
+		body := ast.Block{Stmts: []ast.Node{
+			ast.Assign{Name: "vtq", Value: ast.Binary{Op: "*", L: ast.Binary{Op: "+", L: ast.IntLit{V: 5}, R: ast.IntLit{V: 6}}, R: ast.IntLit{V: 2}}},
+			ast.If{Cond: nm("vskip"), Then: ast.Assign{Name: lm, Value: ast.Binary{Op: "*", L: ast.Binary{Op: "+", L: nm("vtq"), R: ast.IntLit{V: 1}}, R: ast.IntLit{V: 2}}}},
+			e}}
+		add("locals-after-skipped-assignment", true, true, ast.Assign{Name: "vf", Value: ast.FuncLit{Params: append(append([]string{}, names...), "vskip"), Body: body}}, call("vf", args...))
+	}
 	add("toplevel-return-discarded", false, false, ast.Return{X: e})
 	// typed identity wrappers move e to operand depth 1..3 and to the left/right side
 	var ids []func(ast.Node) ast.Node
@@ -181,6 +216,17 @@ func c12Placements(e ast.Node, t gen.Ty, r *core.Rng) []placement {
 	return ps
 }
 
+// c12Globals: the global names that hold a value (something that can be passed as an argument) after the prelude.
+func c12Globals(ref *rs.Interp) map[string]bool {
+	m := map[string]bool{}
+	for k, v := range ref.Globals {
+		if v.K != val.Nil {
+			m[k] = true
+		}
+	}
+	return m
+}
+
 // runPlacement executes prelude + placement on a fresh calc session and
 // returns (value, output of the placement statements, error class).
 func runPlacement(prelude []ast.Node, p placement) (v val.Value, out, errc string, abort string) {
@@ -280,6 +326,7 @@ func c12Expr(ctx *core.Ctx, idx int) core.Result {
 			return res
 		}
 	}
+	globalsBefore := c12Globals(ref)
 	w := ref.Exec(e)
 	if w.Ambiguous != "" || w.Budget || w.TooBig {
 		res.Verdict, res.Reason = core.Dropped, "expression outside the agreed region: "+w.Ambiguous
@@ -289,9 +336,18 @@ func c12Expr(ctx *core.Ctx, idx int) core.Result {
 		res.Verdict, res.Reason = core.Dropped, "expression has no value"
 		return res
 	}
+	if w.Err == "" {
+		// the typed placements (e + [], "<" + e, e * 1 ...) are identities only for a value of the expression's static
+		// type; a planted fault that skipped a re-assignment leaves a variable with the value, and kind, it had before
+		wantK := map[gen.TK]val.Kind{gen.TInt: val.Int, gen.TFloat: val.Float, gen.TBool: val.Bool, gen.TStr: val.Str, gen.TArr: val.Arr}
+		if k, ok := wantK[t.K]; ok && w.Value.K != k {
+			res.Verdict, res.Reason = core.Dropped, "the expression's value is not of its static type (an assignment was skipped by a planted fault)"
+			return res
+		}
+	}
 	in := map[string]any{"prelude": sessionText(prelude), "expression": ast.Print(e, nil), "type": t.String(),
 		"reference": map[string]any{"value": val.Debug(w.Value), "output": w.Out, "error": w.Err}}
-	for _, p := range c12Placements(e, t, r) {
+	for _, p := range c12Placements(e, t, r, globalsBefore) {
 		if d := ast.Denotable(p.Stmts[len(p.Stmts)-1]); d != "" {
 			continue
 		}
@@ -577,15 +633,85 @@ func c12Cond(_ *core.Ctx, idx int) core.Result {
 	return res
 }
 
+// c12BoolCmp: a comparison with a boolean literal written as the whole condition of if / while means what it
+// means anywhere else (for a non-boolean operand == is simply false, != true): the statement runs the branch the
+// reference semantics picks, in every statement form and nesting.
+var c12CmpOperands = []ast.Node{ast.IntLit{V: 0}, ast.IntLit{V: 1}, ast.FloatLit{V: 1.5}, ast.StrLit{V: "true"}, ast.StrLit{V: ""}, ast.ArrayLit{}, ast.ArrayLit{Elems: []ast.Node{ast.BoolLit{V: true}}},
+	ast.Name{N: "vnum"}, ast.Call{Fn: "toa", Args: []ast.Node{ast.BoolLit{V: true}}}, ast.Binary{Op: "+", L: ast.Name{N: "vnum"}, R: ast.Name{N: "vnum"}}, ast.BoolLit{V: true}, ast.BoolLit{V: false}, ast.Name{N: "vyes"},
+	ast.Binary{Op: "<", L: ast.Name{N: "vnum"}, R: ast.IntLit{V: 9}}}
+
+const c12BoolCmpCount = 14 * 8 * 6 * 3
+
+func c12BoolCmp(_ *core.Ctx, idx int) core.Result {
+	v := c12CmpOperands[idx%len(c12CmpOperands)]
+	k := (idx / len(c12CmpOperands)) % 8
+	form := (idx / (len(c12CmpOperands) * 8)) % 6
+	where := idx / (len(c12CmpOperands) * 8 * 6) % 3
+	lit := ast.BoolLit{V: k&1 == 0}
+	op := []string{"==", "!="}[(k>>1)&1]
+	var c ast.Node = ast.Binary{Op: op, L: v, R: lit}
+	if k&4 != 0 {
+		c = ast.Binary{Op: op, L: lit, R: v}
+	}
+	ran, other := icall("write", ast.StrLit{V: "RAN"}), icall("write", ast.StrLit{V: "ELSE"})
+	neg := func(x ast.Node) ast.Node { return ast.Unary{Op: "!", X: x} }
+	var st ast.Node
+	var name string
+	switch form {
+	case 0:
+		name, st = "if", ast.If{Cond: c, Then: ran}
+	case 1:
+		name, st = "if-else", ast.If{Cond: c, Then: ran, Else: other}
+	case 2:
+		name, st = "if-else-negated", ast.If{Cond: neg(c), Then: other, Else: ran}
+	case 3:
+		name, st = "while", ast.While{Cond: c, Body: ast.Block{Stmts: []ast.Node{ran, ast.Return{X: ast.IntLit{V: 1}}}}}
+	case 4:
+		name, st = "while-negated", ast.While{Cond: neg(c), Body: ast.Block{Stmts: []ast.Node{ran, ast.Return{X: ast.IntLit{V: 1}}}}}
+	default:
+		name, st = "if-mid-block", ast.Block{Stmts: []ast.Node{ast.If{Cond: c, Then: ran}, ast.IntLit{V: 3}}}
+	}
+	stmts := []ast.Node{ast.Assign{Name: "vnum", Value: ast.IntLit{V: 4}}, ast.Assign{Name: "vyes", Value: ast.BoolLit{V: true}}}
+	switch where {
+	case 0:
+		stmts = append(stmts, st)
+	case 1:
+		name += "/in-function"
+		stmts = append(stmts, ast.Assign{Name: "vf", Value: ast.FuncLit{Body: st}}, icall("vf"))
+	default:
+		name += "/in-function-mid"
+		body := []ast.Node{st, ast.IntLit{V: 1}}
+		if b, ok := st.(ast.Block); ok {
+			body = append(append([]ast.Node{}, b.Stmts...), ast.IntLit{V: 1})
+		}
+		stmts = append(stmts, ast.Assign{Name: "vf", Value: ast.FuncLit{Body: ast.Block{Stmts: body}}}, icall("vf"))
+	}
+	for _, doOut := range []bool{true, false} {
+		opts := diffOpts{DoOut: doOut, Stress: "plain"}
+		d := runDiff(stmts, opts)
+		res := diffCase("C12", stmts, opts, d, map[string]any{"family": "boolcmp", "placement": name})
+		if res.Verdict != core.Held || !doOut {
+			if res.Verdict == core.Held {
+				res.Add("placements_run", 2)
+				res.Tag("boolcmp:" + name)
+				res.Nontrivial = true
+			}
+			return res
+		}
+	}
+	return core.Result{Verdict: core.Inconclusive, Reason: "unreachable"}
+}
+
 func init() {
 	register(&core.Property{
 		ID:          "C12",
-		Rule:        "(1) typed expressions (all operators, calls, closures, writes through called functions, planted faults) embedded in ~35 placements: used/discarded, function tail/return/non-tail/mid-block, assignment, argument, array element (first and after constants), if arms incl. negated condition, while/for bodies at top level and in functions, yielded, top-level return, operand depth 1..3 via typed identity wrappers on either side, each compared with the reference answer for the plain expression; (2) rewrites x=x+1 / x=1+x / t=x;x=t+1, e op e / t=e;t op t, if !c A else B / if c B else A, while with negated condition, at top level and inside functions, REPL and script mode; (3) enumerated non-boolean conditions (13 values x 5 bodies x 8 statement forms x 3 nestings) must be type errors everywhere without running the body. non-trivial = expression of >= 3 nodes (1), every case (2,3); distinct by prelude+expression / variant text.",
+		Rule:        "(1) typed expressions (all operators, calls, closures, writes through called functions, planted faults) embedded in ~35 placements: used/discarded, function tail/return/non-tail/mid-block, assignment, argument, array element (first and after constants), if arms incl. negated condition, while/for bodies at top level and in functions, yielded, top-level return, operand depth 1..3 via typed identity wrappers on either side, each compared with the reference answer for the plain expression; (2) rewrites x=x+1 / x=1+x / t=x;x=t+1, e op e / t=e;t op t, if !c A else B / if c B else A, while with negated condition, at top level and inside functions, REPL and script mode; (3) enumerated non-boolean conditions (13 values x 5 bodies x 8 statement forms x 3 nestings) must be type errors everywhere without running the body; (4) boolcmp: comparisons of 14 operands with a boolean literal (== / !=, either side) written as the whole condition of if / if-else / while in 3 nestings must pick the branch the reference picks, without error. non-trivial = expression of >= 3 nodes (1), every case (2,3); distinct by prelude+expression / variant text.",
 		Assumptions: []string{"expressions whose plain evaluation the reference finds ambiguous or nil-valued are dropped"},
 		Families: []core.Family{
 			{Name: "expr", Count: countFn(5000, 150000), Run: c12Expr},
 			{Name: "rewrite", Count: countFn(4000, 100000), Run: c12Rewrites},
 			{Name: "cond", Count: func(string) int { return 13 * 5 * 8 * 3 }, Run: c12Cond},
+			{Name: "boolcmp", Count: func(string) int { return c12BoolCmpCount }, Run: c12BoolCmp},
 		},
 		Floors: []core.Floor{{Key: "placements_run", Quick: 60000, Thor: 3000000}, {Key: "tag:placement:", Quick: 30, Thor: 30}, {Key: "tag:rewrite:", Quick: 6, Thor: 6}, {Key: "tag:cond:", Quick: 20, Thor: 20}, {Key: "nontrivial", Quick: 3000, Thor: 120000}},
 	})
